@@ -12,6 +12,8 @@
   disp <box_reference> n0 n1 px py pz <vects0 9> px py pz <vects1 9> <pos0 3·n0> <pos1 3·n1>
         3·n values; err:value for different atom counts or an unknown reference
   slice n a b c        → the expanded indices (for checking `sliceIndices` against python)
+  api dvect|dmag2 k <k integer flags> <vects 9> A A    A := s | f x y z | r n <3n> | k n   (the wrappers' own argument handling)
+  pbcarg k <k integers>                                  → ok px py pz | err:assert          (`System.pbc = value`)
 
   stateful part (one heap of Box and System objects, `w reset` empties it):
   w reset | w newbox <v 9> <o 3> | w newsys b px py pz n <pos 3n>            → ok <id>
@@ -184,6 +186,43 @@ def handleSlice (l : List String) : Option String := do
     | some ks => " ".intercalate ("ok" :: ks.map toString)
     | none => err "value")
 
+/-- `A := s | f x y z | r n <3n values> | k n` (0-d value, flat point, (n,3) array, (n,3,3) array). -/
+def posArg : P (PosArg Rat) := fun l => do
+  let (k, l) ← tok l
+  match k with
+  | "s" => pure (.scalar, l)
+  | "f" => let (p, l) ← v3 l; pure (.flat p, l)
+  | "r" => let (n, l) ← nat l; let (ps, l) ← many v3 n l; pure (.rows ps, l)
+  | "k" => let (n, l) ← nat l; pure (.rank3 n, l)
+  | _ => none
+
+/-- `api dvect|dmag2 k <k integer flags> <vects 9> A A` → `ok n …` / err:type / err:value / err:undefined -/
+def handleApi (l : List String) : Option String := do
+  let (kind, l) ← tok l
+  let (k, l) ← nat l
+  let (flags, l) ← many int k l
+  let (v, l) ← m3 l
+  let (a0, l) ← posArg l
+  let (a1, l) ← posArg l
+  if l ≠ [] then none else
+  match kind with
+  | "dvect" => pure (match dvectApi v flags a0 a1 with
+      | .ok r => " ".intercalate ["ok", toString r.length, showV3s r]
+      | .error e => err e)
+  | "dmag2" => pure (match dmag2Api v flags a0 a1 with
+      | .ok r => " ".intercalate ["ok", toString r.length, showRats r]
+      | .error e => err e)
+  | _ => none
+
+/-- `pbcarg k <k integers>`: what `System.pbc = value` stores, `err:assert` unless there are exactly three entries. -/
+def handlePbcArg (l : List String) : Option String := do
+  let (k, l) ← nat l
+  let (vals, l) ← many int k l
+  if l ≠ [] then none else
+  pure (match pbcSetterArg vals with
+    | some (a, b, c) => " ".intercalate ["ok", showBool a, showBool b, showBool c]
+    | none => err "assert")
+
 /-! ### stateful part -/
 
 abbrev W := World Rat
@@ -319,6 +358,8 @@ def handleC02 (toks : List String) : String :=
   | "sys" :: r => (C02Drv.handleSys r).getD (err "format")
   | "disp" :: r => (C02Drv.handleDisp r).getD (err "format")
   | "slice" :: r => (C02Drv.handleSlice r).getD (err "format")
+  | "api" :: r => (C02Drv.handleApi r).getD (err "format")
+  | "pbcarg" :: r => (C02Drv.handlePbcArg r).getD (err "format")
   | _ => err "op"
 
 def stepC02 (w : C02Drv.W) (toks : List String) : C02Drv.W × String :=
